@@ -208,6 +208,16 @@ func checkC10(rep *core.Report) {
 	// the record a decoder is handed is a copy, but its specifier lists are the cached template's arrays: nothing
 	// outside the parsers writes, copies or appends into them (same rule as R12.10)
 	checkTemplateSpecifiersReadOnly(prog, r3)
+	// "a lookup returns exactly the template of that exporter and id" rests on two premises shared with C04: distinct
+	// (exporter, id) pairs never share a key, and the unlocked key/shard derivation modifies nothing shared
+	r7 := rep.Rule("R10.7", "premise (shared with C04): the cache key is injective in (exporter address, template id)", 4)
+	for _, rel := range []string{"ipfix", "netflow/v9"} {
+		if c := findTplCache(prog, rel); c.shardT != nil && c.getShard != nil {
+			checkKeyInjective(r7, c)
+		}
+	}
+	r8 := rep.Rule("R10.8", "premise (shared with C04): the key/shard derivation, which runs before any lock is taken, modifies no package-level object", 1)
+	checkDerivationPure(prog, r8)
 }
 
 // checkReflectionEscape: every call that hands a value containing shards to a reflection-based encoder.
